@@ -104,6 +104,17 @@ def driverFuns : Funs := fun f pos kw =>
     | [.arr l] => [.int l.length]
     | [.int _] => [.int 1]
     | _ => [.undef]
+  else if f = "<func>rhs" then
+    -- the right-hand side of the Fortran family: -2 * y
+    match bindArgs ["t", "y"] pos kw with
+    | [_, .arr l] => [.arr (l.map (Option.map (fun x => -2 * x)))]
+    | [_, .int x] => [.int (-2 * x)]
+    | _ => [.undef]
+  else if f = "<builtin>elementwise_abs" then
+    match bindArgs ["x"] pos kw with
+    | [.arr l] => [.arr (l.map (Option.map (fun x => if x < 0 then -x else x)))]
+    | [.int x] => [.int (if x < 0 then -x else x)]
+    | _ => [.undef]
   else if f = "<builtin>array" then
     match bindArgs ["n"] pos kw with
     | [.int n] => [.arr (List.replicate n.toNat Option.none)]
